@@ -35,6 +35,9 @@ type upload struct {
 	CtlName string
 	Ctl     []byte
 	Files   []upFile
+	// ChecksumOnly: entries that appear in the Checksums-* fields but not in
+	// Files (the lists of a control file need not agree)
+	ChecksumOnly []upFile
 	SrcDir  string
 	DstDir  string
 }
@@ -42,15 +45,21 @@ type upload struct {
 const c20Src, c20Dst = "/queue/incoming/src", "/queue/dest"
 const c20Third0 = "/queue/third"
 
-func renderUploadCtl(kind, source string, v mVersion, files []upFile) []byte {
+func renderUploadCtl(kind, source string, v mVersion, files []upFile, extra ...upFile) []byte {
 	var sb strings.Builder
 	if kind == "dsc" {
 		fmt.Fprintf(&sb, "Format: 3.0 (quilt)\nSource: %s\nBinary: %s\nArchitecture: any\nVersion: %s\nMaintainer: A B <a@b>\n", source, source, v.Text)
-		if len(files) > 0 {
-			sb.WriteString("Checksums-Sha256:\n")
-		}
-		for _, f := range files {
-			fmt.Fprintf(&sb, " %064x %d %s\n", len(f.Content), len(f.Content), f.Listed)
+		for _, field := range []string{"Checksums-Sha1", "Checksums-Sha256"} {
+			if field == "Checksums-Sha1" && len(extra) == 0 {
+				continue
+			}
+			if len(files)+len(extra) > 0 {
+				sb.WriteString(field + ":\n")
+			}
+			w := map[string]int{"Checksums-Sha1": 40, "Checksums-Sha256": 64}[field]
+			for _, f := range append(append([]upFile{}, files...), extra...) {
+				fmt.Fprintf(&sb, " %0*x %d %s\n", w, len(f.Content), len(f.Content), f.Listed)
+			}
 		}
 		if len(files) > 0 {
 			sb.WriteString("Files:\n")
@@ -65,6 +74,15 @@ func renderUploadCtl(kind, source string, v mVersion, files []upFile) []byte {
 		}
 		for _, f := range files {
 			fmt.Fprintf(&sb, " %x %d devel optional %s\n", md5.Sum(f.Content), len(f.Content), f.Listed)
+		}
+		if len(extra) > 0 {
+			for _, field := range []string{"Checksums-Sha1", "Checksums-Sha256"} {
+				sb.WriteString(field + ":\n")
+				w := map[string]int{"Checksums-Sha1": 40, "Checksums-Sha256": 64}[field]
+				for _, f := range append(append([]upFile{}, files...), extra...) {
+					fmt.Fprintf(&sb, " %0*x %d %s\n", w, len(f.Content), len(f.Content), f.Listed)
+				}
+			}
 		}
 	}
 	return []byte(sb.String())
@@ -133,7 +151,20 @@ func genUpload(t *rt.Tape, r *rt.Run, srcDir, tag string, allowOdd bool) *upload
 		u.Files[i].Escapes = false
 		r.Probe("control-file-lists-itself")
 	}
-	u.Ctl = renderUploadCtl(u.Kind, source, v, u.Files)
+	if t.Bool(1, 6, "up.checksum-only") {
+		// an entry that only the checksum fields know: nothing says such a name is
+		// a file of the upload, and wherever it points outside the two directories
+		// it must be left alone
+		listed := []string{"../../cs-only-secret.key", "/queue/cs-only-abs.key", stem + ".buildinfo", "../cs-only-up.key"}[t.Draw(4, "up.csonly.name")]
+		f := upFile{Listed: listed, Base: path.Base(listed), SrcPath: path.Join(srcDir, listed), Content: []byte("known to the checksum fields only: " + listed)}
+		if path.IsAbs(listed) {
+			f.SrcPath = listed
+		}
+		f.Escapes = path.Dir(f.SrcPath) != srcDir
+		u.ChecksumOnly = []upFile{f}
+		r.Probe("name-listed-only-in-checksum-fields")
+	}
+	u.Ctl = renderUploadCtl(u.Kind, source, v, u.Files, u.ChecksumOnly...)
 	for i := range u.Files {
 		if u.Files[i].Listed == u.CtlName {
 			u.Files[i].Content = u.Ctl
@@ -218,6 +249,9 @@ func c20Exec(r *rt.Run, w *c20Work, planIdx int, fault simos.Fault, tag string) 
 		}
 	}
 	fs.PutQuiet("/queue/bystander.txt", []byte("bystander"))
+	for _, f := range u.ChecksumOnly {
+		fs.PutQuiet(f.SrcPath, f.Content)
+	}
 	if w.Second == "Move" {
 		fs.MkdirAllQuiet(c20Third0)
 	}
@@ -749,5 +783,5 @@ func init() {
 		},
 		Assumptions: []string{"crash = death of the calling process (completed calls persist); power-loss semantics are not modelled because the library never calls fsync and the property does not promise power-fail durability", "after a crash only the every-instant invariants are demanded; the atomic-failure clause is demanded when an error is returned", "a listed name must resolve to a file directly in the control file's own directory: a subdirectory of it is outside (strict reading of the statement)"},
 	})
-	propProbes["C20"] = []string{"second-operation-on-the-same-handle", "destination-holds-hard-links-to-the-source-files", "destination-is-the-source-directory", "traversal-name", "absolute-name", "name-with-subdirectory", "control-file-lists-itself", "file-needs-several-read-write-calls", "uploader-crashed", "EXDEV-on-rename", "fault-on-control-file-create", "fault-on-control-file-write", "fault-on-control-file-close", "fault-on-control-file-rename", "fault-on-first-file", "fault-on-last-file", "crash-between-last-file-and-control-file", "watcher-ran-between-create-and-first-write-of-control-file"}
+	propProbes["C20"] = []string{"name-listed-only-in-checksum-fields", "second-operation-on-the-same-handle", "destination-holds-hard-links-to-the-source-files", "destination-is-the-source-directory", "traversal-name", "absolute-name", "name-with-subdirectory", "control-file-lists-itself", "file-needs-several-read-write-calls", "uploader-crashed", "EXDEV-on-rename", "fault-on-control-file-create", "fault-on-control-file-write", "fault-on-control-file-close", "fault-on-control-file-rename", "fault-on-first-file", "fault-on-last-file", "crash-between-last-file-and-control-file", "watcher-ran-between-create-and-first-write-of-control-file"}
 }
